@@ -63,6 +63,41 @@ CHECKS = {
         "Grid of 5 (quick) / 7 (thorough) candidate points, axes of <= 3 points, 6 tolerances.",
         "DESIGN.md section 4 / C09",
     ),
+    "C08": (
+        "exploration",
+        "E1",
+        "exhaustive enumeration of all ordered bound pairs from a bound alphabet per axis x item kind x linking, "
+        "observed on optimize() results; set-semantics oracle (must/may), complement, union, monotonicity over all nested pairs",
+        "Every interval that can be formed from bounds below/on/between/above the axis points and +-inf is applied "
+        "through the real pipeline for zero/only/relation/penalty/weight items and the affected index set is compared "
+        "with the statement's set semantics; monotonicity is checked on all nested pairs of the enumeration.",
+        "Axes of 1-5 points; generic data; the affected set is inferred from exact zeros/ratios/weights in the result.",
+        "DESIGN.md section 4 / C08",
+    ),
+    "C10": (
+        "model_checking",
+        "E2+E5",
+        "explicit-state BFS over objective-evaluation histories (incl. a raising evaluation) on fresh real Optimizers "
+        "with a deep full-state digest; partial-order (conflict-relation) exploration of the prange kernels' source + "
+        "compiled runs under every thread count",
+        "For every scheme of the feature enumeration all evaluation sequences up to the depth bound are replayed on a "
+        "fresh Optimizer and the penalty compared bit-exactly with a stateless evaluation (the search closes); the "
+        "caller's scheme is snapshotted; the parallel kernels' iterations are shown conflict-free for all shapes up to "
+        "the bound (one Mazurkiewicz class) and compiled results are bit-identical for thread counts 1..16.",
+        "Native numba threads cannot be scheduled by the harness (see DESIGN section 5); 5 vectors; depth 3/4.",
+        "DESIGN.md section 4 / C10",
+    ),
+    "C11": (
+        "exploration",
+        "E1",
+        "exhaustive enumeration of parameter sets over kind x value position; monitor on every vector evaluated in "
+        "every optimisation over all pairs of parameter kinds x methods x starts",
+        "All small parameter sets are round-tripped through the optimiser vector; in every enumerated fit every "
+        "evaluated vector, history record and the result are checked for feasibility, fixed/expression consistency and "
+        "label/Jacobian/covariance/standard-error ordering.",
+        "Two-rate model; iterates are SciPy's (configurations are enumerated, trajectories monitored).",
+        "DESIGN.md section 4 / C11",
+    ),
 }
 
 PENDING_REASON = "check under construction in this round - not claimed until its check runs clean on the unchanged tree"
@@ -103,8 +138,9 @@ def main():
             "add_only": True,
         },
         "engines": [
-            {"name": "E1", "path": "vf/core.py", "serves_properties": ["C02", "C03", "C09"], "kind_free_text": "bounded exhaustive input-space enumeration with reference oracles, 16 workers"},
-            {"name": "E2", "path": "vf/explore.py", "serves_properties": ["C12", "C19"], "kind_free_text": "explicit-state BFS over event histories replayed on fresh real objects, full-state digests"},
+            {"name": "E1", "path": "vf/core.py", "serves_properties": ["C02", "C03", "C08", "C09", "C11"], "kind_free_text": "bounded exhaustive input-space enumeration with reference oracles, 16 workers"},
+            {"name": "E2", "path": "vf/explore.py", "serves_properties": ["C10", "C12", "C19"], "kind_free_text": "explicit-state BFS over event histories replayed on fresh real objects, full-state digests"},
+            {"name": "E5", "path": "vf/prange.py", "serves_properties": ["C10"], "kind_free_text": "partial-order (conflict relation) exploration of numba prange kernels on py_func with recording array proxies"},
             {"name": "E4", "path": "vf/tlc.py", "serves_properties": ["C19"], "kind_free_text": "TLA+ model explored by TLC; every edge of the dumped state graph replayed against the implementation"},
         ],
         "checks": checks,
